@@ -703,9 +703,20 @@ def _manifest_subsets(pt, seed, only=None):
         rc = cl.signals_to_torch_feat_dir(lay.args(manifest=False))
         if rc:
             raise core.HarnessError("in-process reference run returned %r" % (rc,))
+        wrote = sorted(os.listdir(lay.out))
+        expect = sorted(os.path.basename(lay.file(u)) for u in ids)
+        if wrote != expect:
+            # not a harness matter: an UNINTERRUPTED run must leave exactly one loadable file
+            # <prefix><utt_id><suffix> per utterance (that is what a manifest line stands for)
+            return core.result([core.violation(
+                dict(what="uninterrupted_run_files", ids=name, naming=naming,
+                     missing=bool(set(expect) - set(wrote)), unexpected=bool(set(wrote) - set(expect))),
+                "ids %r (%s naming): an uninterrupted run wrote %r, one file per utterance would be %r" % (
+                    ids, naming, wrote, expect),
+                dict(kind="manifest_subsets", idset=name, perm=list(perm), seed_opt=seed_opt, naming=naming,
+                     only=[0, False]))],
+                obs="reference_files_wrong")
         ref = {u: torch.load(lay.file(u)) for u in lay.utts}
-        if sorted(os.listdir(lay.out)) != sorted(os.path.basename(lay.file(u)) for u in ids):
-            raise core.HarnessError("reference run wrote %r" % (sorted(os.listdir(lay.out)),))
         for mask in range(2 ** n):
             listed = [u for i, u in enumerate(ids) if mask >> i & 1]
             for rev in ((False, True) if len(listed) > 1 else (False,)):
